@@ -363,6 +363,29 @@ func (u UnitBytes) MarshalJSON() ([]byte, error) {
 ''', '''	key = strings.TrimRight(key, " ")
 ''', "the key is no longer trimmed by a class (KEYTRIM)"),
  ("C12", "evalsymlinks-of-parent", "K", "utils/pathutils.go", '''			target, err := filepath.EvalSymlinks(currentPath)''', '''			target, err := filepath.EvalSymlinks(filepath.Dir(currentPath))''', "the path evaluated is not the path tested (SYMEVAL)"),
+ ("C17", "loadmodel-without-environment", "K", "cli/options.go", '''	configDetails.Environment = o.Environment
+''', '''''', "LoadModel hands the loader no environment (CLIENV)"),
+ ("C20", "carried-value-outlives-environment", "K", "loader/loader.go", '''					if env, _ := v["environment"].(string); env != "" {
+						// Return a map with the Content field populated
+						v["Content"] = val
+					}''', '''					v["Content"] = val''', "the carried value becomes the content although `environment` was reset (SEC-8b)"),
+ ("C09", "ulimit-json-through-tags", "K", "types/types.go", '''	return json.Marshal(struct {
+		Soft int `json:"soft"`
+		Hard int `json:"hard"`
+	}{
+		Soft: u.Soft,
+		Hard: u.Hard,
+	})''', '''	return json.Marshal(*u)''', "required soft / hard dropped by omitempty when zero (OMITREQ)"),
+ ("C09", "envfile-format-not-rendered", "K", "types/envfile.go", '''	if e.Format != "" {
+		m["format"] = e.Format
+	}
+''', '''''', "the format is still tested for the short form but no longer rendered (MARSHALALL: the value must flow into the result)"),
+ ("C13", "coordinator-returns-on-cancel", "K", "graph/traversal.go", '''				<-started
+''', '''''', "the coordinator frees its slot as soon as the context is cancelled (FAN-SLOT)"),
+ ("C06", "config-env-written-as-content", "K", "loader/environment.go", '''			config[types.SecretConfigXValue] = found''', '''			config["content"] = found''', "an included config from the environment gets `content` next to `environment` (REVALID)"),
+ ("C18", "empty-initial-name", "K", "dotenv/parser.go", '''	key, offset, inherited := src, len(src), true
+''', '''	key, offset, inherited := "", 0, false
+''', "a name at the end of the source is lost again (KEYTRIM-src)"),
 ]
 
 
